@@ -481,9 +481,20 @@ func (p *projSpec) applySpecEdit2(op *opSpec) bool {
 			if p.Targets[i].label() == op.Label {
 				t := p.Targets[i]
 				p.Targets = append(p.Targets[:i:i], p.Targets[i+1:]...)
-				// its private source files go with it
+				// its private source files go with it (not the ones another target names too)
 				for _, s := range t.Sources {
 					rel := p.sourceRel(&t, s)
+					shared := false
+					for j := range p.Targets {
+						for _, s2 := range p.Targets[j].Sources {
+							if r2 := p.sourceRel(&p.Targets[j], s2); r2 == rel || strings.HasPrefix(r2, rel+"/") || strings.HasPrefix(rel, r2+"/") {
+								shared = true
+							}
+						}
+					}
+					if shared {
+						continue
+					}
 					for f := range p.Files {
 						if f == rel || strings.HasPrefix(f, rel+"/") {
 							delete(p.Files, f)
@@ -613,6 +624,18 @@ func c14Exec(scAny any, c *simcheck.Ctx) *simcheck.Violation {
 			return nil
 		}
 		after := recordFiles(h.w.root)
+		if os.Getenv("VERIF_DEBUG_C14") != "" {
+			var a, l []string
+			for n := range after {
+				a = append(a, n)
+			}
+			for n := range live {
+				l = append(l, n)
+			}
+			sort.Strings(a)
+			sort.Strings(l)
+			fmt.Fprintf(os.Stderr, "C14 op %d %+v\n  after: %v\n  live:  %v\n", i, *op, a, l)
+		}
 		for n, b := range beforeRecords {
 			if !live[n] {
 				continue
